@@ -582,12 +582,31 @@ def run(ctx):
             w = rnd(rng, n - 1, -1, 1)
             xk = np.concatenate([[float(np.linalg.norm(w)) + rng.uniform(0.2, 2)], w])
             yk = rnd(rng, n)
+            hard = None
+            if kern == "jnrm2" and rng.random() < 0.3:
+                # the J-norm of an interior vector is representable whenever the vector is: huge / tiny magnitudes
+                # (x0^2 overflows or underflows, the norm does not) and an order-2 vector next to the boundary
+                # (x0 - |x1| is exact, x0^2 - x1^2 is not)
+                hard = rng.choice(["huge", "tiny", "boundary2"])
+                if hard == "boundary2":
+                    n = 2
+                    a_ = rng.choice([1.0, 3.0, 1e4, 1e8]) * rng.choice([1, -1])
+                    xk = np.array([abs(a_) + rng.choice([1.0, 0.5, 2.0 ** -10]), a_])
+                    yk = rnd(rng, n)
+                else:
+                    xk = xk * (1e160 if hard == "huge" else 1e-160)
+                ctx.count("jnrm2." + hard)
             bx = np.concatenate([np.full(offx, PAT), xk] + ([np.full(2, PAT)] if use_n else []))
             by = np.concatenate([np.full(offy, PAT), yk] + ([np.full(1, PAT)] if use_n else []))
             if kern == "jdot":
                 want = xk[0] * yk[0] - float(xk[1:] @ yk[1:])
             else:
-                want = math.sqrt(xk[0] ** 2 - float(xk[1:] @ xk[1:]))
+                # exact rational arithmetic for the reference, rounded once
+                from fractions import Fraction
+                from decimal import Decimal, getcontext
+                getcontext().prec = 60
+                q_ = Fraction(float(xk[0])) ** 2 - sum(Fraction(float(v)) ** 2 for v in xk[1:])
+                want = float((Decimal(q_.numerator) / Decimal(q_.denominator)).sqrt())
             def call(mod):
                 x, y = to_matrix(bx), to_matrix(by)
                 if kern == "jdot":
@@ -596,6 +615,12 @@ def run(ctx):
                     r = mod.jnrm2(x, n=n, offset=offx) if use_n else mod.jnrm2(x)
                 return {"r": np.array([r])}
             def judge(o, iname):
+                if hard is not None:
+                    got = float(o["r"][0])
+                    c.check()
+                    c.require(math.isfinite(got) and abs(got - want) <= 1e-10 * abs(want), "jnrm2:%s:definition-%s" % (iname, hard),
+                              "jnrm2 of the interior vector %r = %r, exact value %r" % (list(xk), got, want))
+                    return
                 close(c, o["r"], [want], "%s:%s:definition" % (kern, iname), kern,
                       scale=max(1.0, float(np.linalg.norm(xk) * np.linalg.norm(yk))), tol=1e-10)
             run_both(c, kern, call, judge, lambda o: o["r"])
